@@ -7,7 +7,7 @@ def run(rep, tier):
     wd = rep.wd
     rep.rule = ("UTF-8: every byte string of length <=3 and every 4-byte string with lead F0..F7 plus seeded near-valid "
                 "mutations, spec verdict = TLC-checked automaton table executed as data; views: every TLC-enumerated "
-                "make/export/null/read/write/import/drop behaviour x 12 element types; non-trivial = distinct behaviours "
+                "make/export/null/read/write/import/drop behaviour x 13 element types (12 primitives + a 16-byte, 8-aligned view placed off its size); non-trivial = distinct behaviours "
                 "containing a NULL view or a zero-length value, plus exhaustively-checked valid UTF-8 strings")
     rep.assumptions += ["Unicode Table 3-7 is the definition of valid UTF-8", "x86-64 host",
                         "debug assertions and UB checks enabled in the harness build (unsafe-precondition aborts are observed)"]
